@@ -35,3 +35,16 @@ package disk
 // saving then loading the metric type is the identity on the two defined types
 //@ lemma metric_type_roundtrip: forall t MetricType :: (t == MetricFreeSpace || t == MetricRepoSize) ==> ite(ite(t == MetricFreeSpace, "freespace", ite(t == MetricRepoSize, "reposize", "")) == "reposize", MetricRepoSize, MetricFreeSpace) == t
 //@   property C15
+
+// ---- C15: loading a section = the defaults, then the section applied on top of them (a setting the section does
+// not carry gets its default, not whatever the object held before) ----
+//@ ghost var defaultsN int
+//@ func (cfg *Config) Default
+//@   opts trusted
+//@   counts defaultsN when true
+//@   modifies heap(Config)
+//@ func (cfg *Config) LoadJSON
+//@   property C15
+//@   requires cfg != nil
+//@   at_call Config.applyJSONConfig assert [defaults-first] defaultsN == old(defaultsN) + 1
+//@   modifies *
